@@ -539,3 +539,81 @@ func TestVFC09ResetAcrossHourStep(t *testing.T) {
 		vfC09.Nontrivial(fmt.Sprintf("reset_across_hour|%d|%d|%d|%t|%d|%t", before, during, after, hourEnds, laterPolls, nextHour))
 	})
 }
+
+// TestVFC09CloseVsFlush: a clean shutdown at the moment the hourly worker
+// polls.  Whichever of the two gets to the database first, both must finish,
+// and the queries of the hour that has just ended must be there after the
+// restart.  Real goroutines, many rounds per case; a round in which neither the
+// shutdown nor the poll makes progress for a minute is a deadlock.
+func TestVFC09CloseVsFlush(t *testing.T) {
+	vfkit.Begin(t)
+	rapid.Check(t, func(t *rapid.T) {
+		start := uint32(480_000 + rapid.IntRange(0, 47).Draw(t, "start_hour_offset"))
+		counted := rapid.IntRange(1, 12).Draw(t, "updates_per_round")
+		rounds := rapid.IntRange(20, 60).Draw(t, "rounds")
+		spin := rapid.IntRange(0, 40).Draw(t, "yields_before_close")
+
+		hst := vfC09NewHist(t, start, 24, true)
+		defer hst.x.destroy()
+		var progress atomic.Int64
+		for r := 0; r < rounds; r++ {
+			s := hst.x.s
+			for i := 0; i < counted; i++ {
+				s.Update(&Entry{Result: RNotFiltered, Client: vfC09Clients[i%len(vfC09Clients)], Domain: "round.test", ProcessingTime: time.Millisecond})
+			}
+			hst.x.clock.Add(1)
+
+			begin, done := make(chan struct{}), make(chan struct{})
+			var wg sync.WaitGroup
+			var closeErr error
+			wg.Add(2)
+			go func() {
+				defer wg.Done()
+				<-begin
+				s.flush()
+				progress.Add(1)
+			}()
+			go func() {
+				defer wg.Done()
+				<-begin
+				for i := 0; i < (spin+r)%41; i++ {
+					runtime.Gosched()
+				}
+				closeErr = s.Close()
+				progress.Add(1)
+			}()
+			close(begin)
+			go func() { wg.Wait(); close(done) }()
+			if !vfkit.WaitProgress(done, &progress, 60*time.Second) {
+				hst.x.s = nil
+				t.Fatalf("deadlock: in round %d neither the clean shutdown nor the poll of the flush worker at the hour step finished (no progress for 60 s); "+
+					"%d queries of the hour that had just ended are not in the database", r, counted)
+			}
+			if closeErr != nil {
+				t.Fatalf("round %d: clean shutdown failed: %v", r, closeErr)
+			}
+			hst.x.s = nil
+			if err := hst.x.open(hst.m.limit, true); err != nil {
+				t.Fatalf("round %d: restart failed: %v", r, err)
+			}
+			code, out, err := hst.x.do(http.MethodGet, "/control/stats", "")
+			if err != nil || code != http.StatusOK {
+				t.Fatalf("round %d: GET /control/stats: %d %s %v", r, code, out, err)
+			}
+			o, perr := vfC09ParseConc(out)
+			if perr != nil {
+				t.Fatalf("round %d: %v", r, perr)
+			}
+			// every round is one hour and the window is 24 hours, the current
+			// (empty) one included or not, depending on who rolled the hour
+			lo, hi := uint64(counted)*uint64(min(r+1, 23)), uint64(counted)*uint64(min(r+1, 24))
+			if got := o.tot[vfC09Tot]; got != lo && got != hi {
+				t.Fatalf("round %d: after a clean shutdown at the hour step and a restart num_dns_queries = %d, want %d or %d (%d per hour, 24 hour window)",
+					r, got, lo, hi, counted)
+			}
+		}
+		vfC09.Eval()
+		vfC09.ClassN("conc:close_vs_flush_rounds", rounds)
+		vfC09.Nontrivial(fmt.Sprintf("close_vs_flush|%d|%d|%d", counted, rounds, spin))
+	})
+}
